@@ -99,7 +99,7 @@ def run_case(kind, D, p, mode, g=0, form=None, Lmin=1):
 
 def worker(t):
     prog = H.get_program()
-    S.BITS_MODE[:] = ['uf', 128] if t.get('contracts', True) else ['table', 40]
+    S.BITS_MODE[:] = ['ladder', 192] if t.get('contracts', True) else ['table', 40]
     saved = list(E.DEFAULT_OVERRIDES)
     try:
         E.DEFAULT_OVERRIDES[:] = K.DIGIT_CONTRACTS + K.ROUNDING_TERM_CONTRACTS if t.get('contracts', True) else []
